@@ -105,6 +105,14 @@ reg('C11', 'grid', 'exploration',
     'Oracles read the table data (not the scoring code) from the modules; input forms per system as listed in the evidence assumptions.',
     'bounded exhaustive enumeration of the input grid against exact-arithmetic reference models', 'DESIGN.md 2.5, 3/C11')
 
+reg('C06', 'grid', 'exploration',
+    'round_up_str_num on every digit string I.F (|I|<=4, |F|<=7 over a 3-4 digit alphabet; all ten digits for |I|<=2, |F|<=3-4; with and without the '
+    'point) x precision 0..5 against the exact Decimal ceiling of the 5-decimal truncation; format_seconds_as_time on the 0.001 s grid, around every '
+    'whole minute up to 100 h and on floats with arithmetic residue x precision 0..3 (field ranges, decimals, never below the duration, less than one '
+    'unit above, parses back); parse_hms on every 1-3 field string over a field set with both separators against the exact sexagesimal value, plus junk.',
+    'Noise aside = truncation of the exact binary value to five decimals; value equality for the round-up helper.',
+    'bounded exhaustive enumeration of input strings/durations against exact-arithmetic reference models', 'DESIGN.md 2.5, 3/C06')
+
 ALL = ['C%02d' % i for i in range(1, 20)]
 PENDING_REASON = 'check not yet built in this session (planned, see DESIGN.md section 7); not claimed until it runs clean'
 
